@@ -109,7 +109,7 @@ func hashcomBody(x *engine.X) {
 			if !errors.Is(err, commitments.ErrVerificationFailed) {
 				lt["reject-other-error"]++
 			}
-			lt["reject"]++
+			lt["reject-"+fieldOf(what)]++
 		}
 	}
 
